@@ -147,7 +147,7 @@ def decode_task(ck, task):
     Nl = linearize(N)
     end = Nl - Lin({}, 2 * crc)
     w = 8 if large else 4
-    simp = lambda v: D.simplify(D.simplify(v, env.facts), env.facts)
+    _sc = {}; simp = lambda v: D.simplify(D.simplify(v, env.facts, _sc), env.facts, _sc)
     data = DEC.DATA
     if not seg_meta:
         R.check_field_bits(ck, it, simp(read_path(it, env, dec, "offset")), data_bits_be("data", H * 8, 8 * w), fn, f"decoded offset == octets {H}..{H + w - 1} ({tag})")
